@@ -38,6 +38,11 @@ type LabelVal struct {
 	Site ssa.Instruction
 	Ctx  string
 	Role string // variable name at the creation site, for reports
+	// Cum is the loop depth of the creation site counted across the inlined call chain from the root emitter
+	// (loop depth of the NewLabel call + loop depths of all enclosing call sites): it does not change when a loop
+	// body is moved into a helper function.  Builder: the label is created inside a method of the builder itself.
+	Cum     int
+	Builder bool
 }
 
 func (l *LabelVal) Key() string {
@@ -75,6 +80,7 @@ type Node struct {
 	L     *LabelVal // EvBind, EvNew
 	Succ  []*Node
 	Ops   string // operation set known at this point (for reports)
+	Lag   int       // EvJrec: 0 = the record names the next emission, 1 = the emission just made
 	// Jrec is the jump record that annotates this EMIT (set by Link).
 	Jrec   *Node
 	endian int
@@ -343,6 +349,9 @@ func (b *Builder) classify(all []*ssa.Function) {
 // IsEmitter reports whether f takes part in emission.
 func (b *Builder) IsEmitter(f *ssa.Function) bool { return b.emitters[f] }
 
+// IsPatcher reports whether f belongs to the jump patcher ((*Program).Assemble and what it calls).
+func (b *Builder) IsPatcher(f *ssa.Function) bool { return b.patcher[f] }
+
 // Emitters lists the emitter functions.
 func (b *Builder) Emitters() []*ssa.Function {
 	var out []*ssa.Function
@@ -457,7 +466,7 @@ func (b *Builder) labelOf(v ssa.Value, fr *frame, e env, depth int) *LabelVal {
 	switch x := v.(type) {
 	case *ssa.Call:
 		if cal := x.Call.StaticCallee(); cal != nil && b.newFns[cal] {
-			return &LabelVal{Site: x, Ctx: fr.id, Role: roleOf(x)}
+			return b.newLabelVal(x, fr)
 		}
 	case *ssa.Parameter:
 		if fr.call == nil {
@@ -474,6 +483,14 @@ func (b *Builder) labelOf(v ssa.Value, fr *frame, e env, depth int) *LabelVal {
 		}
 	}
 	return nil
+}
+
+func (b *Builder) newLabelVal(x *ssa.Call, fr *frame) *LabelVal {
+	l := &LabelVal{Site: x, Ctx: fr.id, Role: roleOf(x), Cum: LoopDepth(x.Block()), Builder: b.isBuilderMethod(x.Parent())}
+	for f := fr; f != nil && f.call != nil; f = f.parent {
+		l.Cum += LoopDepth(f.call.Block())
+	}
+	return l
 }
 
 // roleOf names a label structurally: function, loop nesting depth of the NewLabel call, ordinal among the
@@ -554,14 +571,24 @@ func (l *LabelVal) Fn() *ssa.Function {
 	return l.Site.Parent()
 }
 
+// BuildIn explores the function of a calling context (its parameters bound to the caller's values) for a program
+// object allocated there; the exploration ends when that function returns.
+func (b *Builder) BuildIn(in *Frame, obj *ssa.Alloc) *Graph {
+	return b.build(in.fn, obj, &frame{fn: in.fn, of: in.of, id: in.id})
+}
+
 // Build explores root for the program object obj (an Alloc of type Program in root).
-func (b *Builder) Build(root *ssa.Function, obj *ssa.Alloc) *Graph {
+func (b *Builder) Build(root *ssa.Function, obj *ssa.Alloc) *Graph { return b.build(root, obj, nil) }
+
+func (b *Builder) build(root *ssa.Function, obj *ssa.Alloc, fr *frame) *Graph {
 	b.g = &Graph{Root: root, Object: obj, Cfg: b.cfg}
 	b.frames = map[string]*frame{}
 	b.nodes = map[string]*Node{}
 	b.pending = nil
 	e := env{ops: map[string]uint32{}, last: map[string]int8{}, phis: map[string]int{}, lenz: map[string]int8{}}
-	fr := b.frameFor(nil, nil, root, e)
+	if fr == nil {
+		fr = b.frameFor(nil, nil, root, e)
+	}
 	start := state{fr: fr, blk: root.Blocks[0], idx: 0, env: e}
 	b.g.Entry = b.next(start, map[string]bool{})
 	for len(b.pending) > 0 {
@@ -705,13 +732,13 @@ func (b *Builder) next(s state, seen map[string]bool) []*Node {
 						return append(out, n)
 					}
 				case ".jumps":
-					lt, lf, okj := b.jumpRecord(x, s)
+					lt, lf, lag, okj := b.jumpRecord(x, s)
 					if !okj {
 						b.problem("%s: store to the jump list that is not append(list, JumpIf{...})", s.fr.fn.Name())
 						break
 					}
 					n, _ := b.node(s, EvJrec, in, adv)
-					n.LT, n.LF = lt, lf
+					n.LT, n.LF, n.Lag = lt, lf, lag
 					return append(out, n)
 				}
 			}
@@ -731,6 +758,18 @@ func (b *Builder) next(s state, seen map[string]bool) []*Node {
 					if l == nil {
 						b.problem("%s: label bound through a value that cannot be resolved to a NewLabel call", s.fr.fn.Name())
 					}
+					// the bound position is the current end of the list
+					if app, ok := x.Value.(*ssa.Call); ok && isBuiltin(app, "append") && len(app.Call.Args) == 2 {
+						if vals, ok := elementsOf(app.Call.Args[1]); ok && len(vals) == 1 {
+							if lag, ok := b.positionLag(vals[0], in); !ok || lag != 0 {
+								b.problem("%s: a label is bound to something other than the current end of the instruction list", s.fr.fn.Name())
+							}
+						} else {
+							b.problem("%s: a label is bound by something other than append(candidates, position)", s.fr.fn.Name())
+						}
+					} else {
+						b.problem("%s: a label is bound by something other than append(candidates, position)", s.fr.fn.Name())
+					}
 					n, _ := b.node(s, EvBind, in, adv)
 					n.L = l
 					return append(out, n)
@@ -742,7 +781,7 @@ func (b *Builder) next(s state, seen map[string]bool) []*Node {
 			switch {
 			case cal != nil && b.newFns[cal] && b.recvIsObject(x, s):
 				n, _ := b.node(s, EvNew, in, adv)
-				n.L = &LabelVal{Site: x, Ctx: s.fr.id, Role: roleOf(x)}
+				n.L = b.newLabelVal(x, s.fr)
 				return append(out, n)
 			case cal != nil && b.patcher[cal] && b.recvIsObject(x, s):
 				n, _ := b.node(s, EvEnd, in, adv)
